@@ -438,26 +438,23 @@ Qed.
 Lemma reset_hb_fst : forall s, fst (reset_heartbeat_timer s) = set_hb_running true s.
 Proof. intros s. unfold reset_heartbeat_timer. destruct (hb_running s) eqn:E; cbn [fst]; [|reflexivity]. ds s. cbn in E. subst. reflexivity. Qed.
 
-Lemma on_sync_ok_Inv : forall gid asg s, Jcore (Some (gid, true)) s -> stop_pend s = false ->
-  Inv (fst ((upd (set_cur_assign asg) ;; reset_heartbeat_timer ;; upd (set_rejoin_needed false) ;; on_join_complete asg ;; gen_end) s)).
+Lemma sync_ok_gen_Inv : forall gid asg (a : act) s, Jcore (Some (gid, true)) s -> stop_pend s = false ->
+  (forall sA, consumers sA = [] -> stop_requested sA = false -> is_group sA = is_group s ->
+     exists cs', same_core (set_consumers cs' sA) (fst (a sA)) /\
+                 Forall (cons_ok (generation sA) (member sA) asg) cs' /\ (is_group sA = false -> cs' = [])) ->
+  Inv (fst ((upd (set_cur_assign asg) ;; reset_heartbeat_timer ;; upd (set_rejoin_needed false) ;; a ;; gen_end) s)).
 Proof.
-  intros gid asg s H SP. apply stop_pend_false in SP. destruct SP as [Hs Hr].
+  intros gid asg a s H SP HA. apply stop_pend_false in SP. destruct SP as [Hs Hr].
   rewrite !seq_fst. unfold upd at 1 2. cbn [fst]. rewrite reset_hb_fst.
   set (sA := set_rejoin_needed false (set_hb_running true (set_cur_assign asg s))).
   assert (C0 : consumers s = []) by apply (adv_cons_nil _ _ H).
   assert (G0 : gens s = [] /\ rejoin_d s = Some gid) by apply (j8 _ _ H Hs).
-  assert (X : exists cs', same_core (set_consumers cs' sA) (fst (on_join_complete asg sA)) /\
+  assert (X : exists cs', same_core (set_consumers cs' sA) (fst (a sA)) /\
                           Forall (cons_ok (generation s) (member s) asg) cs' /\ (is_group s = false -> cs' = [])).
-  { unfold on_join_complete. destruct (is_group sA) eqn:G.
-    - replace (stop_requested sA) with false by (subst sA; ds s; auto).
-      destruct (start_consumers_spec (group_by_topic asg) sA) as [A B].
-      exists (consumers (fst (start_consumers (group_by_topic asg) sA))). split; [exact A|]. split.
-      + apply B; [subst sA; ds s; prj; subst; constructor|].
-        intros t p cid Hin. subst sA. ds s. prj. unfold cons_ok. cbn. repeat split; auto. apply group_by_topic_In; auto.
-      + intros E. subst sA. ds s. cbn in G, E. congruence.
-    - exists []. cbn [fst]. split; [subst sA; ds s; prj; subst; frame|]. split; [constructor|auto]. }
+  { destruct (HA sA) as (cs' & A1 & A2 & A3); [subst sA; ds s; exact C0|subst sA; ds s; exact Hr|subst sA; ds s; reflexivity|].
+    exists cs'. split; [exact A1|]. split; [subst sA; ds s; exact A2|subst sA; ds s; exact A3]. }
   destruct X as (cs' & SC & FA & NG).
-  set (sB := fst (on_join_complete asg sA)) in *. clearbody sB.
+  set (sB := fst (a sA)) in *. clearbody sB.
   assert (JB : Jcore None (set_rejoin_d None (set_consumers cs' sA))).
   { subst sA. destruct G0 as [G1 G2]. ds s. prj. subst. jgo. }
   assert (SC' : same_core (set_rejoin_d None (set_consumers cs' sA)) (fst (gen_end sB))).
@@ -468,6 +465,62 @@ Proof.
   - unfold same_core in SC'. destruct SC' as (_&_&_&_&E1&E2&_&_&_&E3&_). unfold Prog, progress. rewrite E1, E3. intros. right. left. subst sA. ds s. prj. auto.
 Qed.
 
+Lemma on_sync_ok_Inv : forall gid asg s, Jcore (Some (gid, true)) s -> stop_pend s = false ->
+  Inv (fst ((upd (set_cur_assign asg) ;; reset_heartbeat_timer ;; upd (set_rejoin_needed false) ;; on_join_complete asg ;; gen_end) s)).
+Proof.
+  intros gid asg s H SP. apply (sync_ok_gen_Inv gid asg (on_join_complete asg) s H SP).
+  intros sA C0 Hr _. unfold on_join_complete. destruct (is_group sA) eqn:G.
+  - rewrite Hr. destruct (start_consumers_spec (group_by_topic asg) sA) as [A B].
+    exists (consumers (fst (start_consumers (group_by_topic asg) sA))). split; [exact A|]. split.
+    + apply B; [rewrite C0; constructor|]. intros t p cid Hin. unfold cons_ok. cbn. repeat split; auto. apply group_by_topic_In; auto.
+    + intros E. congruence.
+  - exists []. cbn [fst]. split; [ds sA; cbn in C0; subst; frame|]. split; [constructor|auto].
+Qed.
+
+Lemma firstn_In : forall A (l : list A) n x, In x (firstn n l) -> In x l.
+Proof. induction l as [|y l IH]; intros [|n] x H; cbn in *; try tauto. destruct H as [H|H]; [left; exact H|right; eapply IH; eauto]. Qed.
+
+Lemma set_escaped_Inv : forall s, Inv s -> start_d s <> None \/ stopping s = true -> Inv (set_escaped true s).
+Proof.
+  intros s [A B C] NP. constructor.
+  - apply set_escaped_J; auto.
+  - ds s. exact B.
+  - ds s. unfold Prog. prj. congruence.
+Qed.
+
+Lemma on_sync_raise_Inv : forall gid asg n s, Jcore (Some (gid, true)) s -> stop_pend s = false -> is_group s = true ->
+  start_d s <> None \/ stopping s = true ->
+  Inv (fst ((upd (set_cur_assign asg) ;; reset_heartbeat_timer ;; upd (set_rejoin_needed false) ;;
+             start_consumers (firstn n (group_by_topic asg)) ;; gen_fail KNonKafka) s)).
+Proof.
+  intros gid asg n s H SP G NP.
+  assert (X : Inv (fst ((upd (set_cur_assign asg) ;; reset_heartbeat_timer ;; upd (set_rejoin_needed false) ;;
+                        start_consumers (firstn n (group_by_topic asg)) ;; gen_end) s))).
+  { apply (sync_ok_gen_Inv gid asg _ s H SP). intros sA C0 Hr GA.
+    destruct (start_consumers_spec (firstn n (group_by_topic asg)) sA) as [A B].
+    exists (consumers (fst (start_consumers (firstn n (group_by_topic asg)) sA))). split; [exact A|]. split.
+    - apply B; [rewrite C0; constructor|]. intros t p cid Hin. unfold cons_ok. cbn. repeat split; auto.
+      apply group_by_topic_In. eapply firstn_In; eauto.
+    - intros E. congruence. }
+  (* gen_fail KNonKafka = gen_end, then the exception is only logged: the ghost flag *)
+  assert (E : forall s0, fst ((upd (set_cur_assign asg) ;; reset_heartbeat_timer ;; upd (set_rejoin_needed false) ;;
+                               start_consumers (firstn n (group_by_topic asg)) ;; gen_fail KNonKafka) s0)
+                       = set_escaped true (fst ((upd (set_cur_assign asg) ;; reset_heartbeat_timer ;; upd (set_rejoin_needed false) ;;
+                               start_consumers (firstn n (group_by_topic asg)) ;; gen_end) s0))).
+  { intros s0. rewrite !seq_fst. unfold gen_fail. rewrite seq_fst. cbn [is_kafka]. unfold upd at 3. cbn [fst]. reflexivity. }
+  rewrite E. apply set_escaped_Inv; auto.
+  (* start_d / stopping are untouched by the whole sequence *)
+  rewrite !seq_fst. unfold gen_end, upd. cbn [fst]. rewrite !reset_hb_fst.
+  set (sA := set_rejoin_needed false (set_hb_running true (set_cur_assign asg s))).
+  destruct (start_consumers_spec (firstn n (group_by_topic asg)) sA) as [SC _]. unfold same_core in SC.
+  destruct SC as (_ & _ & _ & S1 & _ & S2 & _).
+  assert (X1 : start_d (set_rejoin_d None (fst (start_consumers (firstn n (group_by_topic asg)) sA))) = start_d s).
+  { destruct (fst (start_consumers (firstn n (group_by_topic asg)) sA)). cbn in *. rewrite S1. subst sA. ds s. reflexivity. }
+  assert (X2 : stopping (set_rejoin_d None (fst (start_consumers (firstn n (group_by_topic asg)) sA))) = stopping s).
+  { destruct (fst (start_consumers (firstn n (group_by_topic asg)) sA)). cbn in *. rewrite S2. subst sA. ds s. reflexivity. }
+  rewrite X1, X2. exact NP.
+Qed.
+
 Lemma on_sync_Inv : forall rid r s, Inv s -> Inv (fst (on_sync rid r s)).
 Proof.
   intros rid r s H. unfold on_sync. apply with_gen_Inv; auto. intros g rest T.
@@ -476,12 +529,15 @@ Proof.
   { apply take_first_cnt with (p := adv) in T. destruct T as (T & _). apply awaits_adv in T. exact T. }
   rewrite Ag in J1. pose proof (set_gens_stab rest s (i_stab _ H)) as St.
   assert (NP' : start_d (set_gens rest s) <> None \/ stopping (set_gens rest s) = true) by (ds s; exact NP).
-  destruct r as [asg| | |k]; try apply (rae_end_Inv _ _ _ J1 NP').
+  destruct r as [asg| | |k|asg n]; try apply (rae_end_Inv _ _ _ J1 NP').
   all: destruct (stop_pend (set_gens rest s)) eqn:SP;
     [apply (gen_end_Inv _ _ J1 St); apply stop_pend_cases in SP; intuition|].
   - apply (on_sync_ok_Inv _ _ _ J1 SP).
   - apply (gen_fail_Inv _ _ _ J1 St NP').
   - apply (gen_fail_Inv _ _ _ J1 St NP').
+  - destruct (ctor_raises asg n (set_gens rest s)) eqn:CR; [|apply (on_sync_ok_Inv _ _ _ J1 SP)].
+    apply (on_sync_raise_Inv _ _ _ _ J1 SP); auto.
+    unfold ctor_raises in CR. destruct (is_group (set_gens rest s)); [reflexivity|discriminate].
 Qed.
 
 Lemma Inv_frame : forall s s', same_core s s' -> Inv s -> Inv s'.
